@@ -268,21 +268,17 @@ func runC01(c *Ctx) {
 			}
 		}
 		var live []c01liveItem
+		replayBase := runtime.NumGoroutine()
 		defer func() {
 			// let goroutines started by the replayed calls run BEFORE the node is stopped (stopping cancels their context):
 			// a panic in one of them is what a crash replay is looking for
 			c.Out.Flush()
-			// at least 1.5 s, then until the number of goroutines has been stable for half a second (6 s at most): on a
-			// loaded machine the goroutine that panics may be scheduled late
+			// at least 1.5 s, then until the goroutines the replayed calls started have ended (the count is back at what
+			// it was before the replay; 20 s at most - a uTP dial to a silent peer gives up after 10-15 s and the
+			// goroutine that then panics is what a crash replay is looking for)
 			time.Sleep(1500 * time.Millisecond)
-			last, stable := runtime.NumGoroutine(), 0
-			for w := 0; w < 45 && stable < 5; w++ {
+			for w := 0; w < 185 && runtime.NumGoroutine() > replayBase; w++ {
 				time.Sleep(100 * time.Millisecond)
-				if g := runtime.NumGoroutine(); g == last {
-					stable++
-				} else {
-					last, stable = g, 0
-				}
 			}
 			if len(live) > 0 {
 				runC01LiveList(c, 0, live)
